@@ -20,7 +20,8 @@ RULE = (
     '20 % all float32, 40 % an independent type per argument from float64/float32/int64/int32 (float32 geometry with float64 data and '
     'vice versa, integer data); tolerance by the dtype of the RESULT (float64: 1e-11, float32: 1e-5); scattering angles in (0, pi] '
     'with pi itself, 1e-12..1e-3 neighbourhoods of pi and 1e-12..1e-2 neighbourhoods of 0 over-weighted; units drawn '
-    'per argument from ns/us/ms/s, mm/cm/m/km, angstrom/nm/m, ueV/meV/eV/J, deg/rad, 1/angstrom,1/nm,1/m; operand '
+    'per argument from ps/ns/us/ms/s, fm/pm/angstrom/nm/um/mm/cm/m/km (flight paths AND wavelengths), neV/ueV/meV/eV/keV/J, '
+    'deg/rad, 1/pm,1/angstrom,1/nm,1/um,1/mm,1/m; operand '
     'shapes scalar, 1-d, 2-d broadcast with per-pixel geometry, 1-d data with scalar geometry, and binned (event) '
     'data. One case = one array element; a case is non-trivial when the kernel returns a finite value that is '
     'compared against the Lean model (correspondence) or the exact formula (oracle); distinct = distinct '
@@ -47,14 +48,7 @@ TRUSTED = [
 ]
 
 SHAPES = ['scalar', '1d', '2d', 'mixed', 'binned']
-C01_UNITS = {
-    'time': ['ns', 'us', 'ms', 's'],
-    'length': ['mm', 'cm', 'm', 'km'],
-    'wavelength': ['angstrom', 'nm', 'm'],
-    'energy': ['ueV', 'meV', 'eV', 'J'],
-    'angle': ['deg', 'rad'],
-    'Q': ['1/angstrom', '1/nm', '1/m'],
-}
+C01_UNITS = tk.UNITS  # the same SI-prefixed grid as C07: fm..km, ps..s, neV..J (keV), 1/pm..1/m, deg/rad
 
 
 # ---- building operands and calling the real kernel ------------------------------------------------
